@@ -15,11 +15,13 @@ RULE = ("k in {2,3,4} objects on one file under a common buffered state: either 
         "inside the contexts (only those the program contains) are compared with one shared plain model; "
         "the file is probed without the library after the common exit and must hold every write; afterwards "
         "every object is read once. Strata: item_writes (no clear/reset) and clear_reset (load-free "
-        "mutators as first touch). distinct = case hash; non-trivial = >= 2 objects touched the buffer and "
+        "mutators as first touch) and sessions (2-3 objects, several buffered sessions separated by unbuffered "
+        "phases, tiny key/value alphabet so that contents and their serialised forms recur). distinct = case hash; non-trivial = >= 2 objects touched the buffer and "
         ">= 1 wrote.")
 ASSUMPTIONS = ["objects in *different* buffered states on one file are not generated (documented as unsupported)"]
-STRATA = ["item_writes", "clear_reset"]
-PER = {"quick": {"item_writes": 1000, "clear_reset": 600}, "thorough": {"item_writes": 6000, "clear_reset": 3000}}
+STRATA = ["item_writes", "clear_reset", "sessions"]
+PER = {"quick": {"item_writes": 1000, "clear_reset": 600, "sessions": 600},
+       "thorough": {"item_writes": 6000, "clear_reset": 3000, "sessions": 6000}}
 ITEM_MUT = ["setitem", "delitem", "pop", "popitem", "update", "setdefault", "insert", "append", "extend",
             "iadd", "remove", "reverse"]
 
@@ -29,9 +31,100 @@ def plan(tier, seed):
     return common.plan_grid(tier, seed, combos, PER, STRATA, pieces=4)
 
 
+def _sessions_case(info, spec, r):
+    """Several buffered sessions on one file with unbuffered phases in between, over a tiny alphabet of keys
+    and values, so that the content (and its serialised form) keeps returning to states it was in before -
+    anything an object remembers from an earlier session or phase is stale in the next one."""
+    k = r.choice([2, 2, 3])
+    init = r.choice([MISSING, {}, {"k": 1}, {"k": 2, "z": 1}]) if info.kind == "dict" else r.choice([MISSING, [], [1], [2, 5]])
+    ms = ModelState(info.kind, [init])
+    roots = [[h, 0] for h in range(k)]
+    for h, _ in roots:
+        ms.add_root(h, 0)
+    steps = []
+
+    def op(h):
+        cur = ms.logical[0]
+        if r.random() < 0.4:
+            if info.kind == "dict" and cur and r.random() < 0.5:
+                return {"op": "getitem", "h": h, "path": [], "args": [r.choice(sorted(cur))]}
+            return {"op": "call", "h": h, "path": [], "args": []}
+        if info.kind == "dict":
+            x = r.random()
+            if x < 0.7 or not cur:
+                return {"op": "setitem", "h": h, "path": [], "args": [r.choice(["k", "z"]), r.choice([1, 2, 1, {"n": 1}])]}
+            if x < 0.85:
+                return {"op": "delitem", "h": h, "path": [], "args": [r.choice(sorted(cur))]}
+            return {"op": "reset", "h": h, "path": [], "args": [r.choice([{"k": 1}, {"k": 2}, {"k": 1, "z": 0}])]}
+        x = r.random()
+        if x < 0.35:
+            return {"op": "reset", "h": h, "path": [], "args": [r.choice([[1], [2], [1, 5]])]}
+        if x < 0.6:
+            return {"op": "append", "h": h, "path": [], "args": [r.choice([5, 1])]}
+        if x < 0.8 and cur:
+            return {"op": "pop", "h": h, "path": [], "args": []}
+        if cur:
+            return {"op": "setitem", "h": h, "path": [], "args": [0, r.choice([1, 2])]}
+        return {"op": "append", "h": h, "path": [], "args": [1]}
+
+    def emit(n):
+        for _ in range(n):
+            st = op(r.randrange(k))
+            steps.append(st)
+            ms.apply_op(st)
+
+    buffered_next = r.random() < 0.7
+    sessions = 0
+    for _ in range(r.choice([3, 4, 5, 6])):
+        if buffered_next:
+            sessions += 1
+            mode = r.choice(["backend", "obj"])
+            if mode == "backend":
+                st = {"enter": "backend", "cap": None}
+                steps.append(st)
+                ms.enter(st)
+            else:
+                order = list(range(k))
+                r.shuffle(order)
+                for h in order:
+                    st = {"enter": "obj", "h": h}
+                    steps.append(st)
+                    ms.enter(st)
+            emit(r.choice([1, 2, 3, 4, 6]))
+            if ms.truth[0] == MISSING and ms.logical[0] == ({} if info.kind == "dict" else []):
+                st = ({"op": "setitem", "h": 0, "path": [], "args": ["k", 1]} if info.kind == "dict"
+                      else {"op": "append", "h": 0, "path": [], "args": [1]})
+                steps.append(st)
+                ms.apply_op(st)
+            if mode == "backend":
+                steps.append({"exit": 1})
+                ms.exit()
+            else:
+                order = list(range(k))
+                r.shuffle(order)
+                for h in order:
+                    steps.append({"exit": "obj", "h": h})
+                    ms.exit(h)
+        else:
+            if ms.truth[0] == MISSING:
+                st = ({"op": "setitem", "h": 0, "path": [], "args": ["k", 1]} if info.kind == "dict"
+                      else {"op": "append", "h": 0, "path": [], "args": [1]})
+                steps.append(st)
+                ms.apply_op(st)
+            emit(r.choice([1, 1, 2, 3]))
+        buffered_next = not buffered_next if r.random() < 0.8 else buffered_next
+    for h in range(k):
+        steps.append({"op": "call", "h": h, "path": [], "args": []})
+    return {"cls": info.name, "cfg": spec["cfg"], "res": [init], "roots": roots, "steps": steps,
+            "stratum": spec["stratum"], "sessions": sessions,
+            "oracle": {"results": True, "resource_strict": True, "resource_each_step": True, "final_call": True}}
+
+
 def make_case(spec, i):
     info = catalog.info(spec["cls"])
     r = gen.rng_for(spec["seed"], "C06", spec["cls"], spec["stratum"], i)
+    if spec["stratum"] == "sessions":
+        return _sessions_case(info, spec, r)
     g = gen.G(r, attr=info.attr)
     k = r.choice([2, 2, 3, 3, 4])
     init = MISSING if r.random() < 0.1 else g.shape(info.kind, 2)
